@@ -366,3 +366,95 @@ def split_config(rng, cfg, nfiles):
             if part:
                 files[i]["decorators"] = part
     return files
+
+
+# ---------------------------------------------------------------------------------------
+# level-A ("wild") configurations: no fixture/probe restrictions — any creation form with calls, fields and
+# tags, references in every direction (cycles allowed), names that collide up to case or are prefixes of
+# each other, repeated references inside one pattern, non-ASCII function arguments.
+
+WILD_SVC = ["db", "DB", "Db", "cache", "cache.v2", "cache-v2", "repo", "Repo", "a", "a.b", "a-b", "a_b", "handler", "h1"]
+WILD_PARAM = ["host", "Host", "HOST", "port", "dsn", "dsn.ro", "env", "region", "x", "x1"]
+WILD_TAGS = ["t", "T", "t.u", "plug-in"]
+WILD_FIELDS = ["Host", "host", "Port", "F1", "f1"]
+
+
+def wild_pattern(rng, params):
+    refs = ["%" + rng.choice(params) + "%" for _ in range(3)] if params else []
+    ghost = ["%ghost%", "%missing.p%"]
+    lits = ["", "x", "-", ":", "é", "100%%", "%%", " "]
+    fns = ['%env("A")%', '%env("A", "Grüß Gott")%', '%envInt("N", 5)%', '%todo("później")%', '%todo()%', '%env("Ł")%']
+    k = rng.randint(1, 5)
+    parts = []
+    for _ in range(k):
+        r = rng.random()
+        if r < 0.45 and refs:
+            parts.append(rng.choice(refs))       # the same reference may repeat
+        elif r < 0.5:
+            parts.append(rng.choice(ghost))
+        elif r < 0.7:
+            parts.append(rng.choice(fns))
+        else:
+            parts.append(rng.choice(lits))
+    return "".join(parts)
+
+
+def wild_arg(rng, params, services, tags, earlier=None):
+    r = rng.random()
+    if r < 0.3 and services:
+        if earlier and rng.random() < 0.75:
+            return "@" + rng.choice(earlier)
+        return "@" + rng.choice(services)
+    if r < 0.34:
+        return "@" + rng.choice(["ghost", "Ghost.svc"])
+    if r < 0.5 and tags:
+        return "!tagged " + rng.choice(tags)
+    if r < 0.6:
+        return rng.choice(["!value pkg.Var", "!value &pkg.T{}", "$gontainer"])
+    if r < 0.85:
+        return wild_pattern(rng, params)
+    return gen_literal(rng)
+
+
+def gen_config_wild(rng):
+    ns = rng.randint(1, 6)
+    np_ = rng.randint(0, 5)
+    snames = rng.sample(WILD_SVC, ns)
+    pnames = rng.sample(WILD_PARAM, np_)
+    tags = rng.sample(WILD_TAGS, rng.randint(0, 3))
+    params = {n: (wild_pattern(rng, pnames[:i] if rng.random() < 0.8 else pnames) if rng.random() < 0.6 else gen_literal(rng)) for i, n in enumerate(pnames)}
+    services = {}
+    for idx, n in enumerate(snames):
+        def warg(rng, pn, sn, tg, _e=snames[:idx]):
+            return wild_arg(rng, pn, sn, tg, earlier=_e)
+        if rng.random() < 0.08:
+            services[n] = {"todo": True, "arguments": ["@nothing"]}
+            continue
+        s = {}
+        form = rng.choice(["ctor", "ctor", "value", "type", "ctor-noargs"])
+        if form == "ctor":
+            s["constructor"] = "pkg.New"
+            s["arguments"] = [warg(rng, pnames, snames, tags) for _ in range(rng.randint(0, 3))]
+        elif form == "ctor-noargs":
+            s["constructor"] = "pkg.New"
+        elif form == "value":
+            s["value"] = rng.choice(["pkg.Var", "&pkg.T{}"])
+        else:
+            s["type"] = "*pkg.T"
+        if rng.random() < 0.4:
+            s["calls"] = [[rng.choice(["Set", "With"]), [warg(rng, pnames, snames, tags) for _ in range(rng.randint(0, 2))]] + ([True] if rng.random() < 0.3 else [])
+                          for _ in range(rng.randint(1, 2))]
+        if rng.random() < 0.4:
+            s["fields"] = {f: warg(rng, pnames, snames, tags) for f in rng.sample(WILD_FIELDS, rng.randint(1, 3))}
+        if tags and rng.random() < 0.5:
+            s["tags"] = [t if rng.random() < 0.6 else {"name": t, "priority": rng.choice([0, 5, -5])} for t in rng.sample(tags, rng.randint(1, len(tags)))]
+        if rng.random() < 0.5:
+            s["scope"] = rng.choice(["shared", "contextual", "non_shared"])
+        services[n] = s
+    cfg = {"meta": {"pkg": "gen", "imports": {"pkg": "my/pkg"}}, "services": services}
+    if params:
+        cfg["parameters"] = params
+    if tags and rng.random() < 0.6:
+        cfg["decorators"] = [{"tag": rng.choice(tags), "decorator": "pkg.Dec", "arguments": [wild_arg(rng, pnames, snames, tags) for _ in range(rng.randint(0, 2))]}
+                             for _ in range(rng.randint(1, 3))]
+    return cfg
